@@ -47,7 +47,7 @@ import (
 )
 
 func main() {
-	vh.Main(vh.Commands{"run": cmdRun, "one": cmdOne, "gen": cmdGen, "stress": cmdStress})
+	vh.Main(vh.Commands{"run": cmdRun, "one": cmdOne, "gen": cmdGen, "stress": cmdStress, "pool": cmdPool, "bulk": cmdBulk})
 }
 
 type M = vh.M
@@ -59,18 +59,20 @@ type Step struct {
 }
 
 type Scenario struct {
-	T       int            `json:"t"`
-	Src     string         `json:"src"`  // "tlc" | "seeded"
-	Mode    string         `json:"mode"` // "files" (OpenFilesToChan over FIFOs) | "reader" (OpenReaderToChan over a pipe)
-	Workers int            `json:"workers"`
-	Readers int            `json:"readers"`
-	Batch   int            `json:"batch"`
-	Buf     int            `json:"buf"`
-	Files   [][][]int      `json:"files"`
-	Script  []Step         `json:"script"`
-	SSleep  map[string]int `json:"ssleep,omitempty"` // Sample #j sleeps (ms)
-	RSleep  map[string]int `json:"rsleep,omitempty"` // render #k sleeps (ms); "*" = every render
-	Status  bool           `json:"status,omitempty"` // concurrent status-line reader
+	T        int            `json:"t"`
+	Src      string         `json:"src"`  // "tlc" | "seeded"
+	Mode     string         `json:"mode"` // "files" (OpenFilesToChan over FIFOs) | "reader" (OpenReaderToChan over a pipe)
+	Workers  int            `json:"workers"`
+	Readers  int            `json:"readers"`
+	Batch    int            `json:"batch"`
+	Buf      int            `json:"buf"`
+	Files    [][][]int      `json:"files"`
+	Script   []Step         `json:"script"`
+	SSleep   map[string]int `json:"ssleep,omitempty"`   // Sample #j sleeps (ms)
+	RSleep   map[string]int `json:"rsleep,omitempty"`   // render #k sleeps (ms); "*" = every render
+	Status   bool           `json:"status,omitempty"`   // concurrent status-line reader
+	Missing  string         `json:"missing,omitempty"`  // how a file without content (AggLoop!Missing) is materialised: "absent" (default) | "dir"
+	Deadline int            `json:"deadline,omitempty"` // watchdog in seconds (default 20)
 }
 
 type KN struct {
@@ -288,6 +290,17 @@ func runOne(sc *Scenario, dir string) (*Result, error) {
 	case "files":
 		names := make(chan string, nf)
 		for f := 0; f < nf; f++ {
+			if len(sc.Files[f]) == 0 {
+				// a name that cannot be opened / from which nothing can be read
+				p := filepath.Join(dir, fmt.Sprintf("gone%02d.log", f+1))
+				if sc.Missing == "dir" {
+					if err := os.Mkdir(p, 0o700); err != nil {
+						return nil, err
+					}
+				}
+				names <- p
+				continue
+			}
 			p := filepath.Join(dir, fmt.Sprintf("in%02d.fifo", f+1))
 			if err := syscall.Mkfifo(p, 0o600); err != nil {
 				return nil, err
@@ -311,9 +324,14 @@ func runOne(sc *Scenario, dir string) (*Result, error) {
 	default:
 		return nil, errors.New("bad mode")
 	}
+	var written sync.WaitGroup // every batch of every file has been written (not necessarily read)
 	for f := 0; f < nf; f++ {
 		relCh[f] = make(chan int, 64)
+		if len(sc.Files[f]) == 0 {
+			continue
+		}
 		feeders.Add(1)
+		written.Add(1)
 		go func(f int) {
 			defer feeders.Done()
 			for b := range relCh[f] {
@@ -323,6 +341,7 @@ func runOne(sc *Scenario, dir string) (*Result, error) {
 				}
 				io.WriteString(writers[f], sb.String())
 				if b == len(sc.Files[f])-1 {
+					written.Done()
 					// a FIFO loses its content when the last descriptor is closed before the reader
 					// opened it (readers < files): signal the end only once the data were consumed
 					if fl, ok := writers[f].(*os.File); ok {
@@ -418,7 +437,7 @@ func runOne(sc *Scenario, dir string) (*Result, error) {
 
 	loopDone := make(chan struct{})
 	feedDone := make(chan struct{})
-	go func() { feeders.Wait(); close(feedDone) }()
+	go func() { written.Wait(); close(feedDone) }()
 	go d.run()
 	go func() {
 		helpers.RunAggregationLoop(ext, agg, writeOutput)
@@ -428,9 +447,13 @@ func runOne(sc *Scenario, dir string) (*Result, error) {
 
 	// ---- watchdog: all input released and consumed, but the loop does not return
 	hang := false
+	deadline := 20
+	if sc.Deadline > 0 {
+		deadline = sc.Deadline
+	}
 	select {
 	case <-loopDone:
-	case <-time.After(20 * time.Second):
+	case <-time.After(time.Duration(deadline) * time.Second):
 		hang = true
 	}
 	select {
